@@ -13,53 +13,7 @@ verus! {
 //@include common/vt_tables.vrs
 
 
-// R6: std BTreeMap<String, GeoValue> -> finite map stand-in; the repo newtype GeoProperties and its methods are extracted
-#[verifier::external_body]
-#[verifier::reject_recursive_types(K)]
-#[verifier::reject_recursive_types(V)]
-pub struct BTreeMap<K, V> { k: std::marker::PhantomData<K>, v: std::marker::PhantomData<V> }
-impl<K, V> BTreeMap<K, V> {
-	pub uninterp spec fn view(&self) -> Map<K, V>;
-	#[verifier::external_body]
-	pub fn new() -> (r: Self) ensures r.view() == Map::<K, V>::empty() { unimplemented!() }
-	#[verifier::external_body]
-	pub fn insert(&mut self, key: K, value: V) -> (r: Option<V>) ensures final(self).view() == old(self).view().insert(key, value) { unimplemented!() }
-}
-//@extract struct file="versatiles_geometry/src/geo/properties.rs" name="GeoProperties"
-//@rewrite "String" => "AbsStr"
-//@end
-impl GeoProperties {
-//@extract fn file="versatiles_geometry/src/geo/properties.rs" scope="impl GeoProperties" name="new"
-//@ret r
-//@spec
-		ensures r.0.view() == Map::<AbsStr, GeoValue>::empty()
-//@end
-//@extract fn file="versatiles_geometry/src/geo/properties.rs" scope="impl GeoProperties" name="insert"
-//@rewrite "String" => "AbsStr"
-//@spec
-		ensures final(self).0.view() == old(self).0.view().insert(key, value)
-//@end
-}
-// the property set a feature's tag ids denote (MVT 2.1 §4.4): pairs (key index, value index), later pairs override earlier ones
-pub open spec fn tags_map(keys: Seq<AbsStr>, vals: Seq<GeoValue>, tags: Seq<u32>, n: int) -> Map<AbsStr, GeoValue> decreases n {
-	if n <= 0 { Map::empty() } else { tags_map(keys, vals, tags, n - 1).insert(keys[tags[2 * (n - 1)] as int], vals[tags[2 * (n - 1) + 1] as int]) } }
-impl PropertyManager {
-//@extract fn file="versatiles_geometry/src/vector_tile/property_manager.rs" scope="impl PropertyManager" name="decode_tag_ids"
-//@rewrite "tag_ids: &[u32]" => "tag_ids: &Vec<u32>" R6
-//@rewrite "self.key.get(tag_key)?.to_owned()" => "clone_eq(self.key.get(tag_key)?)" R7
-//@rewrite "self.val.get(tag_val)?.clone()" => "clone_eq(self.val.get(tag_val)?)" R7
-//@ret r
-//@spec
-		// arbitrary tag ids (they come from the file): the denoted property set, or an error for an odd count / an index outside the tables (C19)
-		ensures r is Ok ==> (tag_ids@.len() % 2 == 0 && forall|i: int| 0 <= i < tag_ids@.len() / 2 ==> (#[trigger] tag_ids@[2 * i]) < self.key.list@.len() && tag_ids@[2 * i + 1] < self.val.list@.len()),
-			r is Ok ==> r.unwrap().0.view() == tags_map(self.key.list@, self.val.list@, tag_ids@, tag_ids@.len() as int / 2),
-//@loop 1 iter=it
-			invariant tag_ids@.len() % 2 == 0,
-				properties.0.view() == tags_map(self.key.list@, self.val.list@, tag_ids@, it.index@ as int),
-				forall|j: int| 0 <= j < it.index@ ==> (#[trigger] tag_ids@[2 * j]) < self.key.list@.len() && tag_ids@[2 * j + 1] < self.val.list@.len(),
-//@end
-}
-
+//@include common/vt_props.vrs
 // positional fidelity over a whole table: n pushes produce exactly the n pushed entries, in order
 pub proof fn lemma_push_sequence<T>(before: Seq<T>, pushed: Seq<T>, after: Seq<T>)
 	requires after == before + pushed
